@@ -145,10 +145,15 @@ class TaskGenerator:
         self.index = index
 
     def update(self, exprs):
-        """Update ``self.exprs`` with new ``exprs``."""
-        self.exprs = exprs
+        """Update ``self.exprs`` with new ``exprs``.
+
+        The following tasks generate their simplifications from ``exprs``: a
+        simplification that put one replacement at several positions must not
+        leave several positions with the same node id.
+        """
+        self.exprs = nodes.reduplicate(exprs)
         if self.pickled_exprs is not None:
-            self.pickled_exprs = pickle.dumps(exprs)
+            self.pickled_exprs = pickle.dumps(self.exprs)
 
     def stop(self):
         """Stop generating new taks."""
